@@ -143,9 +143,9 @@ parseChunks:
 				return nil, fmt.Errorf("invalid ICC profile chunk length")
 			}
 
-			chunkData := make([]byte, ch.Length-offset)
-			_, err = io.ReadFull(r, chunkData)
-			if err == io.ErrUnexpectedEOF {
+			chunkData := &bytes.Buffer{}
+			_, err = io.CopyN(chunkData, r, int64(ch.Length-offset))
+			if err == io.EOF {
 				return nil, fmt.Errorf("unexpected EOF reading ICC profile chunk")
 			}
 			if err != nil {
@@ -159,7 +159,7 @@ parseChunks:
 			}
 
 			// Decompress ICC profile data
-			zReader, err := zlib.NewReader(bytes.NewReader(chunkData))
+			zReader, err := zlib.NewReader(chunkData)
 			if err != nil {
 				md.SetICCProfileError(err)
 				break
